@@ -9,10 +9,18 @@
   uses was set up by an earlier instruction.
   `same_open_blocks`: every reachable state at one program point has the same numbers of open blocks and template holes
   (they are fixed by the annotation).
-  The verifier is run on the real compiler's output for every accepted input (lib/props/c08.py); the skeleton is tied to
-  the VM by the D1/D2 run-time cross-check (DS/Model/VerifyRun.lean).
+  `exec_refines_skeleton` (DS/Proofs/ExecSkel.lean, one lemma per opcode): whenever the skeleton is not stuck at a frame's
+  skeleton state, the model VM's `exec` of that instruction — for EVERY heap, configuration, operand values and outcome of
+  the value-level computation — does not end in a structural panic, and if it continues, the new frame is one of the
+  skeleton's successors with the same code.
+  `verified_code_runs_clean`: hence the dispatch loop, started anywhere reachable in verified code, never reports a
+  structural fault, for any number of dispatches (compositional in the sub-VM runs it triggers: every function / computed
+  body is itself a verified code unit).
+  The verifier is run on the real compiler's output for every accepted input (lib/props/c08.py); the model VM is tied to
+  the real VM by the vm stream, and D1/D2 are additionally cross-checked at run time (DS/Model/VerifyRun.lean).
 -/
 import DS.Proofs.VerifyLemmas
+import DS.Proofs.ExecSkel
 
 namespace DS.Props.C08
 open DS.VM DS.Verify
@@ -154,6 +162,109 @@ theorem stuck_blockPop (size : Nat) (s : SK) : (sstep size .blockPop s).isSome =
 
 theorem stuck_dice (size : Nat) (s : SK) : (sstep size .dice s).isSome = true ↔ 1 ≤ s.top ∧ 1 ≤ s.dice ∧ 1 ≤ s.det := by
   simp only [sstep]; split <;> rename_i h <;> simp at h ⊢ <;> omega
+
+/-! ### from the skeleton to the VM -/
+
+/-- **exec refines the skeleton** (every opcode, every heap / configuration / operand values): if the skeleton step is
+    defined at the frame's skeleton state, `exec` does not end in a structural panic, and a continuing `exec` lands in one
+    of the skeleton's successor states, in the same code -/
+theorem exec_refines_skeleton (sub : SubRun) (hsub : NoStructSub sub) (g : G) (f : Frame) (wod dc : Bool) (ins : Instr)
+    (succs : List SK) (hs : sstep f.code.size (kindOf ins) (skOfFrame f wod dc) = some succs) :
+    Post (fun f' => ∃ s' ∈ succs, skMatches f' s' = true ∧ f'.code = f.code) (exec sub g f ins) :=
+  exec_refines sub hsub g f wod dc ins succs hs
+
+/-- the dispatch loop with the sub-VM runner as a parameter (one runner per remaining fuel) -/
+def runWith (subs : Nat → SubRun) : Nat → G → Frame → G × Res SubOut
+  | 0, g, _ => (g, .diverge)
+  | fuel+1, g, f =>
+    if f.pc ≥ f.code.size then
+      (g, .ok { top := if f.top == 0 then none else some (f.stack[f.top - 1]!), spans := solvedSpans g f })
+    else
+      let g := addOps g f.ctx 1
+      if overLimit g (getOps g f.ctx) then (g, .err "允许算力上限")
+      else if f.top == stackSize then (g, .err "执行栈到达溢出线")
+      else
+        match exec (subs fuel) g f (f.code[f.pc]!) with
+        | .next g' f' => runWith subs fuel g' f'
+        | .done g' f' =>
+          (g', .ok { top := if f'.top == 0 then none else some (f'.stack[f'.top - 1]!), spans := solvedSpans g' f' })
+        | .stop g' _ r => (g', r.cast)
+
+/-- `evalLoop` is `runWith` with itself as the sub-VM runner -/
+theorem evalLoop_eq_runWith : ∀ (fuel : Nat) (g : G) (f : Frame),
+    evalLoop fuel g f = runWith (fun k g' fr => evalLoop k g' fr) fuel g f := by
+  intro fuel
+  induction fuel with
+  | zero => intro g f; rfl
+  | succ n ih =>
+    intro g f
+    simp only [evalLoop, runWith]
+    split
+    · rfl
+    · split
+      · rfl
+      · split
+        · rfl
+        · split <;> simp_all
+
+theorem skMatches_eq {f : Frame} {s : SK} (h : skMatches f s = true) : skOfFrame f s.wod s.dc = s := by
+  simp only [skMatches, Bool.and_eq_true, beq_iff_eq] at h
+  obtain ⟨⟨⟨⟨⟨h1, h2⟩, h3⟩, h4⟩, h5⟩, h6⟩ := h
+  cases s
+  simp only [skOfFrame] at *
+  simp [h1, h2, h3, h4, h5, h6]
+
+/-- **Verified code runs clean.**  Start the dispatch loop at any frame whose skeleton state is reachable in a verified
+    code unit: whatever the heap, the configuration, the values on the stack and the random stream are, and however many
+    instructions are dispatched, the run never ends in a structural fault (pop of an empty stack, missing or negative jump
+    target, block / template-hole pop without a push, dice or annotation state nobody set up) — provided the sub-VM runs
+    it triggers do not report one (they execute other code units, to which this theorem applies in turn). -/
+theorem verified_code_runs_clean (subs : Nat → SubRun) (hsubs : ∀ k, NoStructSub (subs k))
+    (code : Code) (ann : Ann) (hv : verifyCode code = .ok ann) :
+    ∀ (fuel : Nat) (g : G) (f : Frame) (wod dc : Bool), f.code = code → Reach code (skOfFrame f wod dc) →
+      NoStruct (runWith subs fuel g f).2 := by
+  intro fuel
+  induction fuel with
+  | zero => intro g f _ _ _ _; exact nostruct_diverge
+  | succ n ih =>
+    intro g f wod dc hcode hr
+    simp only [runWith]
+    split
+    · exact nostruct_ok _
+    · rename_i hpc
+      split
+      · exact nostruct_err _
+      · split
+        · exact nostruct_err _
+        · have hpc' : (skOfFrame f wod dc).pc < code.size := by simp only [skOfFrame]; rw [← hcode]; omega
+          have hns := verified_never_stuck code ann hv _ hr hpc'
+          cases hs : sstep code.size (kindOf code[(skOfFrame f wod dc).pc]!) (skOfFrame f wod dc) with
+          | none => rw [hs] at hns; cases hns
+          | some succs =>
+            have hs' : sstep f.code.size (kindOf (f.code[f.pc]!)) (skOfFrame f wod dc) = some succs := by
+              rw [hcode]; exact hs
+            have hp := exec_refines_skeleton (subs n) (hsubs n) (addOps g f.ctx 1) f wod dc _ succs hs'
+            split
+            · rename_i g' f' hex
+              rw [hex] at hp
+              obtain ⟨s', hmem, hm, hc⟩ := hp
+              have he := skMatches_eq hm
+              exact ih g' f' s'.wod s'.dc (by rw [hc, hcode]) (by rw [he]; exact Reach.step hr hpc' hs hmem)
+            · exact nostruct_ok _
+            · rename_i g' f' r hex
+              rw [hex] at hp
+              exact nostruct_cast hp
+
+/-- … in particular for the model VM's own loop, whose sub-VM runner is the loop itself -/
+theorem evalLoop_runs_clean (code : Code) (ann : Ann) (hv : verifyCode code = .ok ann)
+    (hsubs : ∀ k, NoStructSub (fun g' fr => evalLoop k g' fr))
+    (fuel : Nat) (g : G) (f : Frame) (hcode : f.code = code) (hpc : f.pc = 0) (htop : f.top = 0)
+    (hb : f.blocks = []) (hfb : f.fblocks = []) (hd : f.dice = []) (hdet : f.details = []) :
+    NoStruct (evalLoop fuel g f).2 := by
+  rw [evalLoop_eq_runWith]
+  refine verified_code_runs_clean _ hsubs code ann hv fuel g f false false hcode ?_
+  have : skOfFrame f false false = SK.init := by simp [skOfFrame, SK.init, hpc, htop, hb, hfb, hd, hdet]
+  rw [this]; exact Reach.init
 
 /-! ### non-vacuity: a loop with a conditional exit verifies; malformed code does not -/
 
